@@ -478,6 +478,103 @@ Proof.
   destruct (l_exp l); intros H; inversion H; reflexivity.
 Qed.
 
+(* ---- frame: an operation on family f leaves every other family's ownership alone (for every session) *)
+Definition frame (f : fam) (r r' : reg) : Prop :=
+  forall t f' v x, f' <> f -> owns r f' v x t -> owns r' f' v x t.
+Lemma frame_refl f r : frame f r r.
+Proof. intros t f' v x _ H; exact H. Qed.
+Lemma frame_trans f r1 r2 r3 : frame f r1 r2 -> frame f r2 r3 -> frame f r1 r3.
+Proof. intros A B t f' v x Hn H. apply B; auto. Qed.
+
+Lemma map_pools_frame f r (G : pool -> pool) :
+  (forall q, In q (pools r) -> (p_fam q <> f -> G q = q) /\ (p_fam q = f -> p_fam (G q) = f)) ->
+  frame f r (mkReg (map G (pools r)) (statics r)).
+Proof.
+  intros HG t f' v x Hn [ (p & sl & Hin & Hf & Hs & Hl) | [Hnone Hst] ].
+  - left. exists p, sl. repeat split; auto. simpl.
+    assert (G p = p) by (apply HG; auto; congruence). rewrite <- H. apply in_map; exact Hin.
+  - right. split; [|exact Hst]. simpl. intros p' Hin' Hf'.
+    apply in_map_iff in Hin'. destruct Hin' as (q & <- & Hq). destruct (HG q Hq) as [A B].
+    destruct (fam_eqb (p_fam q) f) eqn:E.
+    + apply fam_eqb_spec in E. rewrite (B E) in Hf'. congruence.
+    + assert (p_fam q <> f) by (intros H; apply fam_eqb_spec in H; congruence).
+      rewrite (A H) in *. apply Hnone; auto.
+Qed.
+
+Lemma upd_pool_frame f r p' : p_fam p' = f -> frame f r (upd_pool r p').
+Proof.
+  intros Hf. unfold upd_pool. apply map_pools_frame. intros q Hq. split.
+  - intros Hn. destruct (same_pool q p') eqn:E; auto.
+    apply same_pool_spec in E. unfold pool_id in E. inversion E. congruence.
+  - intros Hq'. destruct (same_pool q p'); congruence.
+Qed.
+
+Lemma release_pool_frame v f key x s r : frame f r (release_pool v f key x s r).
+Proof.
+  unfold release_pool. destruct (find _ (fam_pools f r)) as [p|] eqn:E; [|apply frame_refl].
+  apply find_in in E. destruct E as [E _]. apply fam_pools_in in E. destruct E as [Hin Hf].
+  destruct (raw_slot (p_geom p) x) as [sl|]; [|apply frame_refl].
+  apply upd_pool_frame. unfold pool_release. destruct (lease_of p sl); [destruct (owner_ok v n s)|]; exact Hf.
+Qed.
+
+Lemma release_static_frame v f x vrf s r : frame f r (release_static v f x vrf s r).
+Proof.
+  unfold release_static. destruct (d5 v); [apply frame_refl|].
+  destruct (sassoc (f, vrf, x) (statics r)) as [o|]; [|apply frame_refl].
+  destruct (o =? s); [|apply frame_refl].
+  intros t f' v' x' Hn [Hl|[Hnone Hs]]; [left; exact Hl|right]. split; [exact Hnone|]. cbn [statics].
+  rewrite sassoc_sunassoc_neq; auto. intros H. inversion H. congruence.
+Qed.
+
+Lemma release_all_frame v f x s r : frame f r (release_all v f x s r).
+Proof.
+  unfold release_all. apply map_pools_frame. intros q Hq. split.
+  - intros Hn. destruct (fam_eqb (p_fam q) f) eqn:E; auto. apply fam_eqb_spec in E. contradiction.
+  - intros Hf. destruct (fam_eqb (p_fam q) f); auto. destruct (raw_slot (p_geom q) x) as [sl|]; auto.
+    unfold pool_release. destruct (lease_of q sl); [destruct (owner_ok v n s)|]; exact Hf.
+Qed.
+
+Lemma release_ip_frame v f x vrf s r r' : In r' (release_ip v f x vrf s r) -> frame f r r'.
+Proof.
+  unfold release_ip. pose proof (release_static_frame v f x vrf s r) as H0.
+  set (r0 := release_static v f x vrf s r) in *.
+  assert (Hall : frame f r (release_all v f x s r0)).
+  { eapply frame_trans; [exact H0|apply release_all_frame]. }
+  destruct f; try (intros [<-|[]]; exact Hall).
+  destruct (filter (fun p => contains p x) (fam_pools FD r0)) as [|c cs] eqn:Ef.
+  - intros [<-|[]]; exact H0.
+  - rewrite <- Ef. intros Hc. apply in_map_iff in Hc. destruct Hc as (p & <- & Hp).
+    apply filter_In in Hp. destruct Hp as [Hp _]. apply fam_pools_in in Hp. destruct Hp as [Hin Hf].
+    destruct (slot_of (p_geom p) x) as [sl|]; [|exact H0].
+    eapply frame_trans; [exact H0|]. apply upd_pool_frame.
+    unfold pool_release. destruct (lease_of p sl); [destruct (owner_ok v n s)|]; exact Hf.
+Qed.
+
+Lemma prov_release_frame v pr r mac s pr' r' : prov_release v pr r mac s = (pr', r') -> frame F4 r r'.
+Proof.
+  unfold prov_release. destruct (assoc mac (by_mac pr)); [|intros H; inversion H; apply frame_refl].
+  destruct (lassoc n (objs pr)) as [l|]; [|intros H; inversion H; apply frame_refl].
+  intros H; inversion H; subst. destruct (l_pool l); [apply release_pool_frame|apply frame_refl].
+Qed.
+
+(* the DHCPv6 provider's release touches IA_NA and PD pools only *)
+Lemma prov6_release_keeps4 v q r duid s q' r' :
+  prov6_release v q r duid s = (q', r') -> forall t vv x, owns r F4 vv x t -> owns r' F4 vv x t.
+Proof.
+  unfold prov6_release.
+  destruct (match passoc duid (n_iana q) with
+            | Some (a, _, pool) =>
+                (mkProv6 (punassoc duid (n_iana q)) (unassoc a (n_addr q)) (n_pd q) (n_pfx q),
+                 match pool with Some k => release_pool v F6 k (a, 0) s r | None => r end)
+            | None => (q, r)
+            end) as [q1 r1] eqn:E1.
+  assert (H1 : forall t vv x, owns r F4 vv x t -> owns r1 F4 vv x t).
+  { destruct (passoc duid (n_iana q)) as [[[a s'] pool]|]; inversion E1; subst; auto.
+    destruct pool; auto. intros t vv x. apply release_pool_frame. discriminate. }
+  destruct (passoc duid (n_pd q1)) as [[[x s'] pool]|]; intros H; inversion H; subst; auto.
+  destruct pool; auto. intros t vv y Ho. apply release_pool_frame; [discriminate|]. apply H1; exact Ho.
+Qed.
+
 (* ---- one owner per (family, VRF, address) when pools of a family do not overlap *)
 Definition pools_disjoint (r : reg) : Prop :=
   forall p q x, In p (pools r) -> In q (pools r) -> p_fam p = p_fam q ->
@@ -569,6 +666,7 @@ Section Invariant.
 Variable K : reg -> Prop.
 Hypothesis K_shape : forall r r', same_shape r r' -> K r -> K r'.
 Hypothesis K_kinds : forall r, K r -> kinds_ok r.
+Hypothesis K_reset : forall r, K r -> forall p, In p (pools r) -> pool_wf (reset_pool p).
 
 Definition rinv (r : reg) : Prop := reg_ok r /\ K r.
 Lemma rinv_step P r r' : rinv r -> step_ok P r r' -> rinv r' /\ pres P r r'.
@@ -776,7 +874,7 @@ Proof.
     as [pr' r2] eqn:Ep.
   apply in_flat_map in H. destruct H as (r3 & H3 & H).
   apply in_map_iff in H. destruct H as (r4 & E & H4).
-  destruct (if ir then prov6_release Repaired (p6 pr') r4 (s_mac s) (s_id s) else (p6 pr', r4)) as [q' r5] eqn:E6.
+  destruct (if ir && s_ipcp s then prov6_release Repaired (p6 pr') r4 (s_mac s) (s_id s) else (p6 pr', r4)) as [q' r5] eqn:E6.
   inversion E; subst; clear E.
   apply dead_inv; auto.
   eapply step_ok_trans; [eapply rel_item_ok with (x := oitem (s_b4 s)) | ].
@@ -786,7 +884,7 @@ Proof.
   eapply step_ok_trans; [eapply rel_item_ok with (x := oitem (s_b6 s)) | ].
   { destruct (s_b6 s); exact H3. }
   eapply step_ok_trans; [eapply rel_item_ok; exact H4|].
-  destruct ir; [eapply prov6_release_ok; exact E6|inversion E6; subst; apply step_ok_refl].
+  destruct (ir && s_ipcp s); [eapply prov6_release_ok; exact E6|inversion E6; subst; apply step_ok_refl].
 Qed.
 
 (* ---------------------------------------------------------------- IPoE: ID / IQ / IS *)
@@ -820,6 +918,14 @@ Proof.
     destruct (inv_sess _ _ Hinv Hin) as [X _]; exact X.
   - split; [exact Hin|split; [reflexivity|split; [reflexivity|split; [reflexivity|]]]].
     apply ipoe_sess_ok; cbn; auto using oo_none.
+Qed.
+
+Lemma mark_duid_ctx st s s0 isreq : ctx_of st s s0 -> ctx_of st s (mark_duid isreq s0).
+Proof.
+  unfold mark_duid. destruct isreq; [auto|]. intros (A & B & C & D & E).
+  unfold ctx_of. cbn [s_id s_ppp s_live].
+  split; [exact A|split; [exact B|split; [exact C|split; [exact D|]]]].
+  intros Hl. exact (E D).
 Qed.
 
 Lemma oitem_kind (a : option N) i : oitem a = Some i -> snd i = 0.
@@ -913,8 +1019,9 @@ Proof.
     apply inv_update with (s := s);
       [exact Hinv|exact Hin|exact Hid|apply anyone_other; exact A12| |apply ipoe_told_ok; reflexivity].
     intros _; apply ipoe_sess_ok; cbn; auto. }
-  destruct a6 as [i6|]; [|destruct ad as [id'|]]; cbv beta iota in H;
+  destruct a6 as [i6|]; [|destruct ad as [id'|]]; cbv beta iota zeta in H;
     try (destruct (prov6_resolved _ _ _ _ _ _ _ _) as [q' [|]]);
+    try (destruct isreq);
     destruct H as [E|[]]; inversion E; subst; apply Hfin; auto using oo_none.
 Qed.
 
@@ -976,11 +1083,153 @@ Proof.
     apply pa_addr_repaired in Ej. destruct Ej as [_ Hn]. intros H. inversion H. contradiction.
 Qed.
 
+(* ---------------------------------------------------------------- partial releases of a dual-stack session *)
+Lemma step_rel4p_inv st s st' o :
+  inv st -> In s (st_sess st) -> s_ppp s = false -> s_live s = true ->
+  In (st', o) (step_rel4p Repaired st s) -> inv st'.
+Proof.
+  intros Hinv Hin Hp Hl. destruct (inv_sess _ _ Hinv Hin) as [Hs _]. destruct (Hs Hl) as (_ & OT & O6 & OD).
+  unfold step_rel4p. intros H. apply in_map_iff in H. destruct H as (r1 & E & H1).
+  destruct (prov_release Repaired (st_prov st) r1 (s_mac s) (s_id s)) as [pr' r2] eqn:Ep.
+  inversion E; subst; clear E.
+  assert (A1 : step_ok (other_than (s_id s)) (st_reg st) r1).
+  { eapply rel_item_ok with (x := oitem (s_b4 s)). destruct (s_b4 s); exact H1. }
+  assert (F1 : frame F4 (st_reg st) r1).
+  { destruct (s_b4 s); [eapply release_ip_frame; exact H1|destruct H1 as [<-|[]]; apply frame_refl]. }
+  pose proof (prov_release_ok _ _ _ _ _ _ Ep) as A2. pose proof (prov_release_frame _ _ _ _ _ _ _ Ep) as F2.
+  apply inv_update with (s := s);
+    [exact Hinv|exact Hin|reflexivity|eapply step_ok_trans; eauto| |apply ipoe_told_ok; exact Hp].
+  intros _. apply ipoe_sess_ok; cbn; [exact Hp|apply oo_none| |].
+  - intros y Hy. apply F2; [discriminate|]. apply F1; [discriminate|]. apply O6; exact Hy.
+  - intros y Hy. apply F2; [discriminate|]. apply F1; [discriminate|]. apply OD; exact Hy.
+Qed.
+
+Lemma step_rel6_inv st s st' o :
+  inv st -> In s (st_sess st) -> s_ppp s = false -> s_live s = true ->
+  In (st', o) (step_rel6 Repaired st s) -> inv st'.
+Proof.
+  intros Hinv Hin Hp Hl. destruct (inv_sess _ _ Hinv Hin) as [Hs _]. destruct (Hs Hl) as (_ & OT & _ & _).
+  unfold step_rel6.
+  destruct (prov6_release Repaired (p6 (st_prov st)) (st_reg st) (s_mac s) (s_id s)) as [q1 r1] eqn:E6.
+  unfold bindl. intros H. apply in_flat_map in H. destruct H as (r2 & H2 & H).
+  apply in_map_iff in H. destruct H as (r3 & E & H3).
+  pose proof (prov6_release_ok _ _ _ _ _ _ E6) as A0. pose proof (prov6_release_keeps4 _ _ _ _ _ _ _ E6) as K0.
+  assert (A2 : step_ok (other_than (s_id s)) r1 r2).
+  { eapply rel_item_ok with (x := oitem (s_b6 s)). destruct (s_b6 s); exact H2. }
+  assert (F2 : frame F6 r1 r2).
+  { destruct (s_b6 s); [eapply release_ip_frame; exact H2|destruct H2 as [<-|[]]; apply frame_refl]. }
+  assert (A3 : step_ok (other_than (s_id s)) r2 r3) by (eapply rel_item_ok; exact H3).
+  assert (F3 : frame FD r2 r3).
+  { destruct (s_bd s); [eapply release_ip_frame; exact H3|destruct H3 as [<-|[]]; apply frame_refl]. }
+  assert (A03 : step_ok (other_than (s_id s)) (st_reg st) r3).
+  { eapply step_ok_trans; [exact A0|]. eapply step_ok_trans; eauto. }
+  destruct (s_b4 s) as [b|] eqn:Eb.
+  - inversion E; subst; clear E.
+    apply inv_update with (s := s);
+      [exact Hinv|exact Hin|reflexivity|exact A03| |apply ipoe_told_ok; exact Hp].
+    intros _. apply ipoe_sess_ok; cbn; [exact Hp| |apply oo_none|apply oo_none].
+    intros y Hy. apply F3; [discriminate|]. apply F2; [discriminate|]. apply K0. apply OT; exact Hy.
+  - destruct (prov_release Repaired (with_p6 (st_prov st) q1) r3 (s_mac s) (s_id s)) as [pr2 r4] eqn:Ep.
+    inversion E; subst; clear E. apply dead_inv; auto.
+    eapply step_ok_trans; [exact A03|]. eapply prov_release_ok; exact Ep.
+Qed.
+
+(* ---------------------------------------------------------------- restart *)
+Lemma reserve_first_ok f x vrf sid r r' y :
+  reg_ok r -> reserve_first Repaired f x vrf sid r = (r', y) ->
+  step_ok anyone r r' /\ (forall i, y = Some i -> owns r' f vrf i sid /\ x = Some i).
+Proof.
+  intros Hok. unfold reserve_first. destruct x as [i|].
+  2:{ intros H; inversion H; subst. split; [apply step_ok_refl|intros; discriminate]. }
+  change (d8 Repaired) with false. destruct (reserve_cont Repaired f i vrf sid r) as [|[r1 ok] cs] eqn:E.
+  - intros H; inversion H; subst. split; [apply step_ok_refl|intros; discriminate].
+  - assert (Hc : In (r1, ok) (reserve_cont Repaired f i vrf sid r)) by (rewrite E; left; reflexivity).
+    destruct (reserve_cont_ok _ _ _ _ _ _ _ Hok Hc) as [A B].
+    rewrite orb_false_r. intros H; inversion H; subst. split; [exact A|].
+    intros j Hj. destruct ok; [|discriminate]. inversion Hj; subst. split; auto.
+Qed.
+
+Lemma restore_one_ok st0 r done s r' done' :
+  rinv r -> Forall (sess_ok r) done -> Forall told_ok done -> told_ok s ->
+  restore_one Repaired st0 (r, done) s = (r', done') ->
+  rinv r' /\ Forall (sess_ok r') done' /\ Forall told_ok done' /\ map s_id done' = map s_id done ++ [s_id s].
+Proof.
+  intros Hr Hd Ht Hts. unfold restore_one.
+  destruct (if s_ppp s then None else passoc (s_id s) st0) as [im|].
+  2:{ intros H; inversion H; subst. split; [exact Hr|split; [|split]].
+      - apply Forall_app. split; [exact Hd|constructor; [|constructor]].
+        destruct (s_started s); [intros Hl; cbn in Hl; discriminate|].
+        intros _. cbn. repeat split; try (intros _; repeat split); apply oo_none.
+      - apply Forall_app. split; [exact Ht|constructor; [|constructor]].
+        destruct (s_started s); [exact Hts|]. intros _. cbn. split; [discriminate|left; reflexivity].
+      - rewrite map_app. destruct (s_started s); reflexivity. }
+  destruct (reserve_first Repaired F4 (oitem (s_b4 im)) (s_vrf im) (s_id s) r) as [r1 b4] eqn:E1.
+  destruct (reserve_first Repaired F6 (oitem (s_b6 im)) (s_vrf im) (s_id s) r1) as [r2 b6] eqn:E2.
+  destruct (reserve_first Repaired FD (s_bd im) (s_vrf im) (s_id s) r2) as [r3 bd] eqn:E3.
+  intros H; inversion H; subst; clear H.
+  destruct (reserve_first_ok _ _ _ _ _ _ _ (proj1 Hr) E1) as [A1 B1].
+  destruct (rinv_step _ _ _ Hr A1) as [Hr1 P1].
+  destruct (reserve_first_ok _ _ _ _ _ _ _ (proj1 Hr1) E2) as [A2 B2].
+  destruct (rinv_step _ _ _ Hr1 A2) as [Hr2 P2].
+  destruct (reserve_first_ok _ _ _ _ _ _ _ (proj1 Hr2) E3) as [A3 B3].
+  destruct (rinv_step _ _ _ Hr2 A3) as [Hr3 P3].
+  split; [exact Hr3|split; [|split]].
+  - apply Forall_app. split.
+    + eapply Forall_impl; [|exact Hd]. intros t Hto.
+      eapply sess_ok_pres with (P := anyone); [exact P3|exact I|].
+      eapply sess_ok_pres with (P := anyone); [exact P2|exact I|].
+      eapply sess_ok_pres with (P := anyone); [exact P1|exact I|exact Hto].
+    + constructor; [|constructor]. apply ipoe_sess_ok; cbn; [reflexivity| | |].
+      * apply oo_oaddr.
+        -- intros j Hj. destruct (B1 j Hj) as [_ Hx]. eapply oitem_kind; exact Hx.
+        -- intros j Hj. apply P3; [exact I|]. apply P2; [exact I|]. apply B1; exact Hj.
+      * apply oo_oaddr.
+        -- intros j Hj. destruct (B2 j Hj) as [_ Hx]. eapply oitem_kind; exact Hx.
+        -- intros j Hj. apply P3; [exact I|]. apply B2; exact Hj.
+      * intros j Hj. apply B3; exact Hj.
+  - apply Forall_app. split; [exact Ht|constructor; [apply ipoe_told_ok; reflexivity|constructor]].
+  - rewrite map_app. reflexivity.
+Qed.
+
+Lemma restore_fold_ok st0 l : forall r done r' done',
+  rinv r -> Forall (sess_ok r) done -> Forall told_ok done -> Forall told_ok l ->
+  fold_left (restore_one Repaired st0) l (r, done) = (r', done') ->
+  rinv r' /\ Forall (sess_ok r') done' /\ Forall told_ok done' /\ map s_id done' = map s_id done ++ map s_id l.
+Proof.
+  induction l as [|s l IH]; cbn [fold_left map]; intros r done r' done' Hr Hd Ht Htl H.
+  - inversion H; subst. rewrite app_nil_r. auto.
+  - inversion Htl as [|? ? Hts Htl']; subst.
+    destruct (restore_one Repaired st0 (r, done) s) as [r1 d1] eqn:E.
+    destruct (restore_one_ok _ _ _ _ _ _ Hr Hd Ht Hts E) as (A & B & C & D).
+    destruct (IH _ _ _ _ A B C Htl' H) as (A' & B' & C' & D').
+    split; [exact A'|split; [exact B'|split; [exact C'|]]]. rewrite D', D, <- app_assoc. reflexivity.
+Qed.
+
+Lemma reset_shape r : same_shape r (mkReg (map reset_pool (pools r)) []).
+Proof. unfold same_shape; simpl. rewrite map_map. apply map_ext. reflexivity. Qed.
+
+Lemma step_restart_inv st st' o : inv st -> In (st', o) (step_restart Repaired st) -> inv st'.
+Proof.
+  intros (Hr & Hnd & Hs & Ht). unfold step_restart.
+  destruct (fold_left (restore_one Repaired (store (st_prov st))) (st_sess st)
+              (mkReg (map reset_pool (pools (st_reg st))) [], [])) as [r' ss] eqn:E.
+  intros [H|[]]; inversion H; subst; clear H.
+  assert (Hr0 : rinv (mkReg (map reset_pool (pools (st_reg st))) [])).
+  { destruct Hr as [[Hn Hw] HK]. split; [split|].
+    - simpl. rewrite map_map. exact Hn.
+    - simpl. apply Forall_forall. intros p' Hp'. apply in_map_iff in Hp'. destruct Hp' as (p & <- & Hp).
+      eapply K_reset; eauto.
+    - eapply K_shape; [apply reset_shape|exact HK]. }
+  destruct (restore_fold_ok _ _ _ _ _ _ Hr0 (Forall_nil _) (Forall_nil _) Ht E) as (A & B & C & D).
+  unfold inv; cbn [st_reg st_sess]. repeat split; auto; try apply A. rewrite D. exact Hnd.
+Qed.
+
 (* ---------------------------------------------------------------- every step, every history *)
 Lemma step_inv st o st' ot : inv st -> In (st', ot) (step Repaired st o) -> inv st'.
 Proof.
   intros Hinv. unfold step, skip.
-  destruct o as [sid vrf s4 s6 spd o4 o6 od|sid a|sid|isreq bind rq sid vrf s4 o4|isreq sid vrf s6 spd o6 od|sid|sid|sid];
+  destruct o as [sid vrf s4 s6 spd o4 o6 od|sid a|sid|isreq bind rq sid vrf s4 o4|isreq sid vrf s6 spd o6 od|sid|sid| |sid|sid];
+    try (apply step_restart_inv; exact Hinv);
     destruct (find_sess sid st) as [s|] eqn:Ef;
     try (intros [E|[]]; inversion E; subst; exact Hinv);
     destruct (find_sess_in _ _ _ Ef) as [Hin Hid].
@@ -995,8 +1244,13 @@ Proof.
     unfold step_id. apply step_id_core_inv with (s := s); auto. apply id_ctx_of; auto.
   - destruct (s_ppp s) eqn:Ep; cbn [negb andb]; [intros [E|[]]; inversion E; subst; exact Hinv|].
     destruct (s_live s) eqn:El; [|intros [E|[]]; inversion E; subst; exact Hinv].
-    unfold step_is. apply step_is_core_inv with (s := s); auto. apply is_ctx_of; auto.
-  - destruct (negb (s_ppp s) && s_live s); [apply step_rel_inv; auto|intros [E|[]]; inversion E; subst; exact Hinv].
+    unfold step_is. apply step_is_core_inv with (s := s); auto. apply mark_duid_ctx. apply is_ctx_of; auto.
+  - destruct (s_ppp s) eqn:Ep; cbn [negb andb]; [intros [E|[]]; inversion E; subst; exact Hinv|].
+    destruct (s_live s) eqn:El; [|intros [E|[]]; inversion E; subst; exact Hinv].
+    destruct (v6bound s); [apply step_rel4p_inv; auto|apply step_rel_inv; auto].
+  - destruct (s_ppp s) eqn:Ep; cbn [negb andb]; [intros [E|[]]; inversion E; subst; exact Hinv|].
+    destruct (s_live s) eqn:El; [|intros [E|[]]; inversion E; subst; exact Hinv].
+    apply step_rel6_inv; auto.
   - destruct (negb (s_ppp s) && s_live s); [apply step_rel_inv; auto|intros [E|[]]; inversion E; subst; exact Hinv].
   - destruct (negb (s_ppp s)); intros [E|[]]; inversion E; subst; exact Hinv.
 Qed.
@@ -1040,9 +1294,22 @@ Proof.
   - destruct f; [apply B|apply C|apply D]; exact Hh.
 Qed.
 
-Definition Kd (r : reg) : Prop := kinds_ok r /\ pools_disjoint r.
+(* every pool is well-formed again after a reset to its initial contents (restart) *)
+Definition resettable (r : reg) : Prop := forall p, In p (pools r) -> pool_wf (reset_pool p).
+Lemma reset_is_new p : reset_pool p = new_pool (p_fam p) (p_key p) (p_prof p) (p_vrf p) (p_geom p).
+Proof. reflexivity. Qed.
+Lemma resettable_shape r r' : same_shape r r' -> resettable r -> resettable r'.
+Proof.
+  intros Hs Hr p' Hin. destruct (same_shape_in _ _ _ Hs Hin) as (p & Hp & E). specialize (Hr p Hp).
+  assert (Eg : p_geom p' = p_geom p) by (unfold psig in E; congruence).
+  rewrite reset_is_new in *. unfold pool_wf, valid_slot, lease_of, new_pool in *. cbn in *. rewrite Eg. exact Hr.
+Qed.
+Definition K1 (r : reg) : Prop := kinds_ok r /\ resettable r.
+Lemma K1_shape r r' : same_shape r r' -> K1 r -> K1 r'.
+Proof. intros Hs [A B]. split; [eapply kinds_ok_shape|eapply resettable_shape]; eauto. Qed.
+Definition Kd (r : reg) : Prop := K1 r /\ pools_disjoint r.
 Lemma Kd_shape r r' : same_shape r r' -> Kd r -> Kd r'.
-Proof. intros Hs [A B]. split; [eapply kinds_ok_shape|eapply pools_disjoint_shape]; eauto. Qed.
+Proof. intros Hs [A B]. split; [eapply K1_shape|eapply pools_disjoint_shape]; eauto. Qed.
 
 Lemma nodup_map_inj {A B} (g : A -> B) (l : list A) a b :
   NoDup (map g l) -> In a l -> In b l -> g a = g b -> a = b.
@@ -1055,7 +1322,7 @@ Proof.
 Qed.
 
 Lemma told_is_recorded_all ps ss st :
-  NoDup (map pool_id ps) -> Forall pool_wf ps -> kinds_ok (mkReg ps []) ->
+  NoDup (map pool_id ps) -> Forall pool_wf ps -> kinds_ok (mkReg ps []) -> resettable (mkReg ps []) ->
   NoDup (map s_id ss) -> Forall fresh_sess ss ->
   reach Repaired (init_state ps ss) st ->
   forall s, In s (st_sess st) ->
@@ -1064,25 +1331,28 @@ Lemma told_is_recorded_all ps ss st :
        (s_a4 s = None \/ s_a4 s = s_told s) /\
        (s_live s = true -> forall t, s_told s = Some t -> owns (st_reg st) F4 (s_vrf s) (t, 0) (s_id s))).
 Proof.
-  intros Hnd Hwf Hk Hns Hfr Hreach s Hin.
-  assert (Hinv : inv kinds_ok st).
-  { eapply (reach_inv kinds_ok kinds_ok_shape (fun r H => H)); [|exact Hreach]. apply init_inv; auto. }
+  intros Hnd Hwf Hk Hrs Hns Hfr Hreach s Hin.
+  assert (Hinv : inv K1 st).
+  { eapply (reach_inv K1 K1_shape (fun r H => proj1 H) (fun r H => proj2 H)); [|exact Hreach].
+    apply init_inv; auto. split; auto. }
   split.
-  - intros f x. apply (holds_owned kinds_ok); auto.
-  - intros Hp. destruct (inv_sess kinds_ok _ _ Hinv Hin) as [Hs Ht]. split; [apply Ht; exact Hp|].
+  - intros f x. apply (holds_owned K1); auto.
+  - intros Hp. destruct (inv_sess K1 _ _ Hinv Hin) as [Hs Ht]. split; [apply Ht; exact Hp|].
     intros Hl t Htold. destruct (Hs Hl) as (_ & B & _). apply B. rewrite Htold. reflexivity.
 Qed.
 
 Lemma unique_all ps ss st :
-  NoDup (map pool_id ps) -> Forall pool_wf ps -> kinds_ok (mkReg ps []) -> pools_disjoint (mkReg ps []) ->
+  NoDup (map pool_id ps) -> Forall pool_wf ps -> kinds_ok (mkReg ps []) -> resettable (mkReg ps []) ->
+  pools_disjoint (mkReg ps []) ->
   NoDup (map s_id ss) -> Forall fresh_sess ss ->
   reach Repaired (init_state ps ss) st ->
   forall s1 s2 f x, In s1 (st_sess st) -> In s2 (st_sess st) -> s_vrf s1 = s_vrf s2 ->
     holds s1 f = Some x -> holds s2 f = Some x -> s1 = s2.
 Proof.
-  intros Hnd Hwf Hk Hd Hns Hfr Hreach s1 s2 f x H1 H2 Hv Hh1 Hh2.
+  intros Hnd Hwf Hk Hrs Hd Hns Hfr Hreach s1 s2 f x H1 H2 Hv Hh1 Hh2.
   assert (Hinv : inv Kd st).
-  { eapply (reach_inv Kd Kd_shape (fun r H => proj1 H)); [|exact Hreach]. apply init_inv; auto. split; auto. }
+  { eapply (reach_inv Kd Kd_shape (fun r H => proj1 (proj1 H)) (fun r H => proj2 (proj1 H))); [|exact Hreach].
+    apply init_inv; auto. split; [split|]; auto. }
   pose proof Hinv as ((Hok & _ & Hdis) & Hids & _).
   pose proof (holds_owned Kd _ _ _ _ Hinv H1 Hh1) as O1.
   pose proof (holds_owned Kd _ _ _ _ Hinv H2 Hh2) as O2.
@@ -1095,4 +1365,10 @@ Proof.
   induction ops as [|o r IH]; simpl; intros st Hr; auto.
   destruct (step v st o) as [|[st' ot] cs] eqn:E; auto.
   apply IH. eapply reach_step; [exact Hr|]. rewrite E. left; reflexivity.
+Qed.
+
+Lemma range_resettable ps :
+  (forall p, In p ps -> exists lo hi ex, p_geom p = GRange lo hi ex) -> resettable (mkReg ps []).
+Proof.
+  intros H p Hin. destruct (H p Hin) as (lo & hi & ex & E). rewrite reset_is_new, E. apply new_pool_wf_range.
 Qed.
